@@ -342,6 +342,9 @@ pub fn specs(tier: Tier) -> Vec<(String, KyteaSpec)> {
     let tpool = ["R", "RH", "H", "RR", "HRR", "O", "R\u{4}", "K"];
     let wpool = ["a", "ab", "abab", "あ", "ba", "aあb"];
     let windows: Vec<(u8, u8)> = tier.pick(vec![(1, 1), (2, 3), (3, 2)], vec![(1, 1), (1, 2), (2, 1), (2, 2), (2, 3), (3, 2), (3, 3), (1, 3), (3, 1)]);
+    let mut windows = windows;
+    // u8 extremes of the window sizes stored in the file (2*W does not fit a u8 from 128 on)
+    windows.extend([(127u8, 1u8), (128, 1), (1, 128), (200, 2), (2, 255), (255, 255)]);
     let kmax = tier.pick(2, 3);
     for (mi, map) in maps.iter().enumerate() {
         for &(cw, tw) in &windows {
@@ -350,7 +353,11 @@ pub fn specs(tier: Tier) -> Vec<(String, KyteaSpec)> {
             let tp: Vec<&str> = tpool.iter().copied().filter(|s| s.chars().count() <= 2 * tw as usize).collect();
             let csets = gen::subsets_upto(cp.len(), kmax);
             let tsets = gen::subsets_upto(tp.len(), kmax);
+            let big = cw > 100 || tw > 100;
             for (i, cs) in csets.iter().enumerate().skip(1) {
+                if big && i % 5 != 1 {
+                    continue;
+                }
                 // (the empty character / type trie is excluded: the converter documents an explicit
                 // "no character dictionary" / "no type dictionary" error for such degenerate files)
                 // pair each char set with a rotating type set (and vice versa) to keep the product finite
@@ -374,6 +381,9 @@ pub fn specs(tier: Tier) -> Vec<(String, KyteaSpec)> {
                 out.push((format!("ngrams map={mi} cw={cw} tw={tw} inh={} c={:?} t={:?}", (i % 2 == 0) as u8, cs.iter().map(|&j| cp[j]).collect::<Vec<_>>(), ts.iter().map(|&j| tp[j]).collect::<Vec<_>>()), k));
             }
             for (i, ts) in tsets.iter().enumerate().skip(1) {
+                if big && i % 5 != 1 {
+                    continue;
+                }
                 let cs = &csets[1 + (i * 3) % (csets.len() - 1)];
                 let k = KyteaSpec {
                     char_map: map.clone(),
